@@ -75,47 +75,41 @@ def enumerate {α} (l : List α) : List (Nat × α) := l.zipIdx.map fun (a, i) =
 def sortedStations (sts : List Station) : List (Nat × Station) :=
   enumerate (sortBy (fun a b => strLe a.key b.key) sts)
 
-/-- writers/bernese_crd.py: the loop over `enumerate(sorted(site_info.keys()))`; `none` when a line
-cannot be formatted (the writer raises) -/
-def crdBody (writeNan : Bool) (sts : List Station) : Option (List Str) :=
-  (sortedStations sts).foldr (fun (p : Nat × Station) acc =>
-    match acc with
+/-- one station the CRD / VEL writers emit: running number (`counter + 1`), the station, its three numbers -/
+abbrev XyzEntry := Nat × Station × Value × Value × Value
+
+/-- the loop over `enumerate(sorted(site_info.keys()))` of writers/bernese_crd.py and bernese_vel.py: stations
+without a coordinate entry are skipped, and so are — unless `write_nan…` — those whose first number is NaN; the
+counter runs over *all* stations -/
+def xyzEntries (writeNan : Bool) (sts : List Station) : List XyzEntry :=
+  (sortedStations sts).filterMap fun p =>
+    match p.2.xyz with
     | none => none
-    | some lines =>
-      match p.2.xyz with
-      | none => some lines
-      | some (x, y, z) =>
-        if !writeNan && x = .nan then some lines else
-        match renderNamed (rowOf "bernese_crd")
-            [("number", .int (p.1 + 1 : Nat)), ("station", .str (upper p.2.key)),
-             ("domes", .str (p.2.domes.getD [])), ("x", x), ("y", y), ("z", z), ("flag", .str ['A'])] with
-        | some l => some (l :: lines)
-        | none => none) (some [])
+    | some (x, y, z) => if !writeNan && x = .nan then none else some (p.1 + 1, p.2, x, y, z)
+
+/-- the keyword arguments of the CRD line's `.format(...)` -/
+def crdEnv (e : XyzEntry) : Env :=
+  [("number", .int (e.1 : Nat)), ("station", .str (upper e.2.1.key)), ("domes", .str (e.2.1.domes.getD [])),
+   ("x", e.2.2.1), ("y", e.2.2.2.1), ("z", e.2.2.2.2), ("flag", .str ['A'])]
+
+/-- writers/bernese_crd.py: the data lines; `none` when a line cannot be formatted (the writer raises) -/
+def crdBody (writeNan : Bool) (sts : List Station) : Option (List Str) :=
+  (xyzEntries writeNan sts).mapM fun e => renderNamed (rowOf "bernese_crd") (crdEnv e)
 
 def lowerStr (s : Str) : String := String.ofList (lower s)
 
+/-- `"" if idn.tectonic_plate is None else plate_def[idn.tectonic_plate.lower()]` (`none`: KeyError) -/
+def velPlate (st : Station) : Option Str :=
+  match st.plate with
+  | none => some []
+  | some pl => (velPlateDef.lookup (lowerStr pl)).map String.toList
+
 /-- writers/bernese_vel.py -/
 def velBody (writeNan : Bool) (sts : List Station) : Option (List Str) :=
-  (sortedStations sts).foldr (fun (p : Nat × Station) acc =>
-    match acc with
+  (xyzEntries writeNan sts).mapM fun e =>
+    match velPlate e.2.1 with
     | none => none
-    | some lines =>
-      match p.2.xyz with
-      | none => some lines
-      | some (x, y, z) =>
-        if !writeNan && x = .nan then some lines else
-        let plate? : Option Str := match p.2.plate with
-          | none => some []
-          | some pl => (velPlateDef.lookup (lowerStr pl)).map String.toList
-        match plate? with
-        | none => none   -- KeyError: unknown plate name
-        | some plate =>
-        match renderNamed (rowOf "bernese_vel")
-            [("number", .int (p.1 + 1 : Nat)), ("station", .str (upper p.2.key)),
-             ("domes", .str (p.2.domes.getD [])), ("x", x), ("y", y), ("z", z), ("flag", .str ['A']),
-             ("plate", .str plate)] with
-        | some l => some (l :: lines)
-        | none => none) (some [])
+    | some plate => renderNamed (rowOf "bernese_vel") (crdEnv e ++ [("plate", .str plate)])
 
 /-- writers/bernese_clu.py -/
 def cluBody (keys : List Str) : Option (List Str) :=
